@@ -132,6 +132,7 @@ func (w *world) applyViaExecutor(chs []change) (res string) {
 	if err != nil {
 		return "err: " + err.Error()
 	}
+	w.asOldCode(&ns)
 	w.cur = ns
 	w.chain = append(w.chain, snap(ns))
 	w.blocks = append(w.blocks, b)
